@@ -375,13 +375,21 @@ def _oracle(ctx, case, step, seq, kind, objs, probes, obs):
         if isinstance(got, str):
             ctx.fail(where, f'find(name {n}) raised {got}; list={luids}', site='find')
         elif sorted(got) != want:
-            if n in ALIAS:      # the open finding: reported once per history (the failure list is capped)
+            # the open finding C14-alias-names-split-index explains EXACTLY this answer and no other: every item whose
+            # name is == the query AND hashes like it, none of the items whose name is == but hashes differently (the
+            # SRT / SCT alias filed under the other key).  Any other wrong answer — also for an alias name — is a
+            # different violation and is reported in full.
+            same_key = sorted(_uid_of(i) for i in lst if i.name == nm and hash(i.name) == hash(nm))
+            alias_only = n in ALIAS and sorted(got) == same_key and same_key != want
+            if alias_only:      # reported once per history (the failure list is capped)
                 seen = ctx.__dict__.setdefault('_alias_reported', set())
                 if case.get('idx') in seen or len(seen) >= 40:      # at most 40 reports of the known finding per run
                     continue
                 seen.add(case.get('idx'))
             ctx.fail(where, {'what': f'find(name {n}) differs from the items of that name in the list',
-                             'found': sorted(got), 'in_list_with_name': want, 'list': luids}, site='find')
+                             'found': sorted(got), 'in_list_with_name': want, 'list': luids,
+                             'explained_by_alias_hash_split': alias_only,
+                             'missed_alias_items': [u for u in want if u not in same_key] if alias_only else []}, site='find')
         elif sorted(obs['find'][n]) != sorted(objs.tags([i for i in lst if i.name == nm])):
             # the same contents, but not the same OBJECTS as are in the sequence
             ctx.fail(where, {'what': f'find(name {n}) returns objects that are equal to, but not the same as, the items in the '
@@ -820,7 +828,11 @@ def attribute(failure, open_findings):
     ids = {f['id'] for f in open_findings}
     d = failure.get('detail')
     what = d.get('what', '') if isinstance(d, dict) else str(d)
-    if 'C14-alias-names-split-index' in ids and failure.get('site') == 'find' and \
+    # only the answer the finding predicts: look-up by an alias name that returns exactly the items filed under the
+    # same hash and misses exactly the ==-named items filed under the other one (computed by the oracle on the
+    # sequence at hand: `explained_by_alias_hash_split`, with the missed items named)
+    if 'C14-alias-names-split-index' in ids and failure.get('site') == 'find' and isinstance(d, dict) and \
+            d.get('explained_by_alias_hash_split') is True and d.get('missed_alias_items') and \
             any(f'find(name {n})' in what for n in ALIAS):
         return 'C14-alias-names-split-index'
     return None
